@@ -1100,8 +1100,22 @@ def small_specs(maxk=3, base="pro", need_tense=False):
         atoms = [a for a in atoms if a[0] != "subj"]
     res = []
     seen = set()
-    for k in range(0, maxk + 1):
-        for combo in itertools.combinations(atoms, k):
+    def combos():
+        for k in range(0, maxk + 1):
+            for combo in itertools.combinations(atoms, k):
+                yield combo
+        if base == "pro" and maxk == 3:
+            # four atoms: reflexive × verb × any two other atoms (the person of the reflexive pronoun only shows with
+            # a 1st/2nd person subject or an imperative, a verb that accepts « se », and a second verb in the clause)
+            refl = [a for a in atoms if a[1] == "refl=True"]
+            verbs = [a for a in atoms if a[0] == "verb"]
+            others = [a for a in atoms if a[0] not in ("verb", "typ:refl")]
+            for r in refl:
+                for v in verbs:
+                    for o in itertools.combinations(others, 2):
+                        yield tuple(sorted((r, v) + o, key=atoms.index))
+    if True:
+        for combo in combos():
             dims = [c[0] for c in combo]
             if len(set(dims)) != len(dims):
                 continue
